@@ -16,6 +16,7 @@ import (
 
 	exserver "github.com/cybergarage/go-redis/examples/go-redisd/server"
 	"github.com/cybergarage/go-redis/redis"
+	"github.com/cybergarage/go-redis/redis/proto"
 )
 
 // Req is one request of a scenario: a command name and argument tokens (sent
@@ -364,6 +365,50 @@ func (rn *runner) run(s Scenario) bool {
 				if rs != nil && s.Model && !s.Concurrent && len(s.ModelConns) == 0 {
 					rn.rec.Emit(Ev{"ev": "store", "c": st.C, "dbs": rs.dump()})
 				}
+			}
+		case "scaniter":
+			// adaptive: a full cursor iteration.  Reqs[0] is a SCAN request whose first argument is the cursor (0); it is
+			// re-sent with the cursor of the previous reply until the server returns cursor 0 or the bound is reached
+			// ("scanstuck": the iteration the client was promised never ends).
+			req := st.Reqs[0]
+			bound := st.At
+			if bound <= 0 {
+				bound = 40
+			}
+			for it := 0; ; it++ {
+				if cr.sc.isDone() {
+					break
+				}
+				if it >= bound {
+					rn.rec.Emit(Ev{"ev": "scanstuck", "c": st.C, "calls": it})
+					break
+				}
+				e := req.encode()
+				before := len(cr.sc.Written())
+				rn.rec.Emit(Ev{"ev": "reqs", "c": st.C, "reqs": []Ev{req.annotate()}, "bytes": len(e), "ends": []int{len(e)}})
+				cr.sentAt = time.Now()
+				cr.sc.Deliver(e, Ev{"upto": len(e), "complete": 1, "of": 1})
+				if !cr.sc.WaitQuiet(rn.timeout) {
+					rn.stall(cr)
+					fail()
+					break
+				}
+				p := proto.NewParserWithBytes(cr.sc.Written()[before:])
+				m, err := p.Next()
+				if err != nil || m == nil {
+					break
+				}
+				v := Project(m)
+				if v.T != "arr" || len(v.E) != 2 || v.E[0].T != "bulk" {
+					break // not a SCAN reply (an error): the specification judges it
+				}
+				cur, ok := parseCanonInt(v.E[0].P)
+				if !ok || cur == 0 {
+					break
+				}
+				args := append([]Tok{}, req.Args...)
+				args[0] = Tok{K: "int", N: cur}
+				req.Args = args
 			}
 		case "halfclose":
 			cr.sc.HalfClose()
